@@ -109,7 +109,7 @@ let parse_cfg (l : string) : config =
       | None -> None) (String.split_on_char ' ' l) in
   let get k = List.assoc k kv in
   { c_init = cells (get "init"); c_worker = (get "stages" = "3");
-    c_heap = (get "store" = "heap"); c_owned = (get "item" = "owned") }
+    c_heap = (get "store" = "heap"); c_owned = (let i = get "item" in String.length i >= 5 && String.sub i 0 5 = "owned") }
 
 let run_file (path : string) =
   let ic = open_in path in
@@ -307,8 +307,9 @@ let gen_op (g : genst) (s : mstate) : string =
 
 let lens = [1; 2; 2; 3; 3; 3; 4; 4; 5; 5; 7; 8; 13; 16; 31; 64]
 
+let force_owned = ref false
 let gen_cfg_line (g : genst) ~owned_ok : string * config =
-  let owned = owned_ok && chance 35 in
+  let owned = owned_ok && (!force_owned || chance 35) in
   let kind = pick ["conc"; "local"] and store = pick ["heap"; "stack"] and st = pick [2; 3; 3] in
   let len =
     if owned then (if store = "stack" then pick [1; 2; 3; 3; 4; 5] else pick [1; 2; 3; 3; 4; 5; 8])
@@ -325,7 +326,7 @@ let gen_cfg_line (g : genst) ~owned_ok : string * config =
        | 1 -> "default", List.init len (fun _ -> 0)
        | _ -> "from", fresh_vals g len) in
   let line = Printf.sprintf "cfg kind=%s store=%s stages=%d item=%s ctor=%s init=%s" kind store st
-      (if owned then "owned" else "plain") ctor (csv init) in
+      (if owned then pick ["owned"; "owned24"; "owned4"] else "plain") ctor (csv init) in
   (line, { c_init = List.map n_of_int init; c_worker = (st = 3); c_heap = (store = "heap"); c_owned = owned })
 
 (* model rand <seed> <count> <min_ops> <max_ops> : histories on stdout.
@@ -534,6 +535,8 @@ let () =
   | _ :: "seq" :: files -> List.iter run_file files
   | _ :: "spec" :: files -> List.iter spec_file files
   | [_; "rand"; seed; count; lo; hi] -> gen_rand (int_of_string seed) (int_of_string count) (int_of_string lo) (int_of_string hi)
+  | [_; "rando"; seed; count; lo; hi] -> force_owned := true; gen_rand (int_of_string seed) (int_of_string count) (int_of_string lo) (int_of_string hi)
+  | [_; "lifeo"; seed; count] -> force_owned := true; gen_life (int_of_string seed) (int_of_string count)
   | [_; "randv"; seed; count; lo; hi] -> gen_rand ~variants:true (int_of_string seed) (int_of_string count) (int_of_string lo) (int_of_string hi)
   | [_; "life"; seed; count] -> gen_life (int_of_string seed) (int_of_string count)
   | [_; "bfs"; maxlen; limit] -> gen_bfs (int_of_string maxlen) (int_of_string limit)
